@@ -664,7 +664,7 @@ def witnesses():
 
 def classify_exp(component, what, case):
     """findings of the compiler core: F390 by the check's own witness comparison, F391 by the crash site"""
-    if case.get("finding_class") in ("F390",):
+    if case.get("finding_class") in ("F390", "F392"):
         return case["finding_class"]
     if case.get("crash") and component == "compile":
         m = re.search(r"schema_compile_node\.c:(\d+):", what)
@@ -747,6 +747,19 @@ def run_exp(cx):
         if st and fl and all(v[:2] == ["err", "Fail"] for v in st) and all(v[0] == "ok" for v in fl) and m_st[:2] == ["err", "Fail"] and m_fl[0] == "ok":
             cx.fail("compile", "valid module set rejected: uses of a grouping inside an augment of a node instantiated from the same grouping (false circular-reference error); its RFC expansion compiles",
                     {"units": render(p390[0][1]), "finding_class": "F390"})
+    # law on libyang's own reply (mandatory_parents): a non-presence container is flagged mandatory only if one of its children is
+    for hid, (nm, tag, rend, o, ex, mid, s) in hmeta.items():
+        a = ri.get(hid, ["err", "NoReply"])
+        if a[0] != "ok" or rend != "structured" or ex != 0 or o != tuple(m["name"] for m in s["mods"]):
+            continue
+        toks = [t.split("|") for t in a[1:] if "|" in t]
+        for t in toks:
+            if t[1] == "container" and t[4] == "M" and t[5] != "P":
+                kids = [k for k in toks if k[0].startswith(t[0] + "/") and k[0].count("/") == t[0].count("/") + 1]
+                if not any(k[4] == "M" for k in kids):
+                    cx.fail("compile", "non-presence container keeps LYS_MAND_TRUE although none of its (remaining) children is mandatory: the mandatory child was removed as disabled (if-feature / not-supported) without lys_compile_mandatory_parents(parent, 0)",
+                            {"units": render(s), "container": t[0], "finding_class": "F392"})
+                    break
     for hid in sorted(hmeta, key=int):
         nm, tag, rend, o, ex, mid, s = hmeta[hid]
         a = ri.get(hid, ["err", "NoReply"])
